@@ -27,7 +27,8 @@ def catalogue():
       sp.ExtentType(L(0, U.pct), L(50, U.pct)), sp.ExtentType(L(10, U.pct), L(0, U.px)))      # nothing to paint on: a zero dimension
   add("FillLineGap", True, False)
   add("FontFamily", ("Arial",), (sp.GenericFontFamilyType.monospace, "Courier"))
-  add("FontSize", L(150, U.pct), L(2, U.em), L(1.5, U.c), L(36, U.px), L(6, U.rh), L(3, U.rw))
+  add("FontSize", L(150, U.pct), L(2, U.em), L(1.5, U.c), L(36, U.px), L(6, U.rh), L(3, U.rw),
+      L(100, U.pct), L(1, U.em), L(1, U.c))          # the values that change nothing: they are computed like any other
   add("FontStyle", sp.FontStyleType.italic, sp.FontStyleType.oblique, sp.FontStyleType.normal)
   add("FontWeight", sp.FontWeightType.bold, sp.FontWeightType.normal)
   add("LineHeight", sp.SpecialValues.normal, L(125, U.pct), L(1.2, U.em), L(2, U.c), L(40, U.px), L(7, U.rh))
